@@ -18,7 +18,7 @@ def parseWith [DecidableEq V] (W : World V) (P : Parser V) (o : Opts V) (data : 
 def runWith [DecidableEq V] (W : World V) (P : Parser V) (o : Opts V) (data : List (Key × V)) (df : Bool) : Outcome V :=
   finish {} W P o (parseWith W P o data df)
 
-/-- the same before fixes/C06-strategy-equivalence.patch -/
+/-- the same before fixes/C06-1..5-*.patch -/
 def runWithLegacy [DecidableEq V] (W : World V) (P : Parser V) (o : Opts V) (data : List (Key × V)) (df : Bool) :
     Outcome V :=
   let st := if df then dataFirstLegacy W P o data else fieldFirstLegacy W P o data
